@@ -108,9 +108,18 @@ def cases(spec, ctx):
         if rng.random() < 0.2:
             ops = []
             for _ in range(rng.randint(2, 6)):
-                kind = rng.choice(["full", "full", "take", "abandon", "drop"])
-                ops.append([kind, 0] if kind == "full" else [kind, 0, rng.randint(1, 3)])
-            yield {"ruletree": c12.gen_case(rng), "ops": ops, "caching": rng.random() < 0.65}
+                # "raise": an evaluation in which user code (a property read by a branch condition or while a conclusion's value
+                # is built) raises at its k-th call
+                kind = rng.choice(["full", "full", "take", "abandon", "drop", "raise"])
+                ops.append([kind, 0] if kind == "full" else [kind, 0, rng.randint(1, 6 if kind == "raise" else 3)])
+            rt = c12.gen_case(rng)
+            if rng.random() < 0.4:
+                # conclusions that carry a nested query and read a property (which the "raise" operation makes fail)
+                rt["concl_subq"] = True
+                rt["pool"] = [[v, rng.randint(1, 4), rng.random() < 0.4] for v in (1, 2, 3, 4)]
+                if not any(o[0] == "raise" for o in ops):
+                    ops.insert(rng.randrange(len(ops) + 1), ["raise", 0, rng.randint(1, 6)])
+            yield {"ruletree": rt, "ops": ops, "caching": rng.random() < 0.65}
             continue
         nv = rng.choice([2, 2, 3])
         kinds = [rng.choice("PQ") for _ in range(nv)]
@@ -309,6 +318,15 @@ def run_ruletree_history(case, caching):
                     extra = list((Counter(got) - Counter(exp)).elements())
                     failures.append({"step": step, "what": "full", "kind": "CONCLUSIONS:" + ("missing" if miss else "") + ("+extra" if extra else ""),
                                      "missing": miss[:6], "extra": extra[:6], "n_expected": len(exp), "n_observed": len(got)})
+            elif op[0] == "raise":
+                D.arm_fault(op[2])
+                try:
+                    n_ = sum(1 for _ in q.evaluate())
+                    log.append(["raise:not_reached", 0, n_])
+                except D.Boom:
+                    log.append(["raise", 0, op[2]])
+                finally:
+                    D.arm_fault(None)
             else:
                 it = q.evaluate()
                 taken = []
